@@ -1,4 +1,5 @@
 import FlatModel.Model.Items2
+import FlatModel.Model.ItemOps
 import FlatModel.Proofs.Items
 import FlatModel.Proofs.HuffRegion
 /-! Helper lemmas for the composite read items (`Option`, `Result`, tuples, slices of items) and the
@@ -284,9 +285,9 @@ end Wrapped
 
 /-! ### items whose reads may panic enter the nested universe through their well-formed states -/
 
-/-- a Huffman item whose decoding does not panic — e.g. every item issued at a valid index of a
-consistent container (`Huff.Container.item_decode`, `LawfulRegion.valid_reads`), and every borrowed one -/
-def WrappedOK : Type := { a : Wrapped // a.decode.isSome }
+/- `WrappedOK` — a Huffman item whose decoding does not panic, e.g. every item issued at a valid index of a
+consistent container (`Huff.Container.item_decode`, `LawfulRegion.valid_reads`), and every borrowed one — is
+defined in Model/ItemOps.lean (the driver uses it): `{ a : Wrapped // a.decode.isSome }`. -/
 
 instance : ItemLaws WrappedOK (List Nat) where
   intoOwned a := a.1.intoOwned.getD []
